@@ -78,11 +78,11 @@ def replay(rep):
     return fn(rep.get("tier", "quick"), int(rep.get("seed", 1)))
 
 
-def _simple_api(pid, tier, seed, evalkey, rule, min_eval, variants=None, distinct="class", level="exploration", exhaustive=None, san="asan", stall_s=12.0):
+def _simple_api(pid, tier, seed, evalkey, rule, min_eval, variants=None, distinct="class", level="exploration", exhaustive=None, san="asan", stall_s=12.0, crash_is_violation=True):
     chk = Check(pid, tier, seed, level=level)
     chk.assumptions = ASSUME_API
     variants = variants or (QUICK_V if tier == "quick" else [(4, 4), (1, 1), (8, 16)])
-    c, d, s = apiprops.run_api(chk, pid, variants, san=san, stall_s=stall_s)
+    c, d, s = apiprops.run_api(chk, pid, variants, san=san, stall_s=stall_s, crash_is_violation=crash_is_violation)
     extra = dict(counters=c, distinct_by_kind=d, chunk_variants=["chunk %dB / refill %dB" % (b * 16, h * 64) for b, h in variants])
     return chk.finish(c.get(evalkey, 0), d.get(distinct, 0), rule, s, extra, min_evaluations=min_eval, exhaustive=exhaustive)
 
@@ -94,7 +94,7 @@ def c05(tier, seed):
                        "truncation, extension, 1/16-byte insertion and deletion at every offset, block/chunk/IV swaps, every "
                        "value of both mode bytes, randomised zero-fill, multi-edits; oracle: accepted => plaintext == original; "
                        "distinct = accepted-with-identical-plaintext (file, kind, offset) triples; rejected offsets counted separately",
-                       20000, distinct="rejected_offsets")
+                       20000, distinct="rejected_offsets", crash_is_violation=False)
 
 
 @prop("C06")
@@ -102,7 +102,7 @@ def c06(tier, seed):
     return _simple_api("C06", tier, seed, "trials",
                        "genuine files x {all 128 one-bit neighbours, random keys, half-equal keys, zero/ff, rotations, "
                        "reversed, one byte zeroed}; oracle: verify false, decrypt false, zero writes on the output stream; "
-                       "distinct = (file, key class, index) rejected without output", 2000)
+                       "distinct = (file, key class, index) rejected without output", 2000, crash_is_violation=False)
 
 
 @prop("C11")
@@ -120,7 +120,7 @@ def c12(tier, seed):
     return _simple_api("C12", tier, seed, "pairs",
                        "genuine (incl. chunk-boundary lengths), tampered, truncated, garbage and wrong-key inputs, each through "
                        "execute_verify and execute_decrypt; oracle: equal verdicts, verify writes nothing, no write reaches an "
-                       "input stream; distinct = (class, offset, arg, length, verdict)", 20000)
+                       "input stream; distinct = (class, offset, arg, length, verdict)", 20000, crash_is_violation=False)
 
 
 @prop("C07")
@@ -181,44 +181,22 @@ def c10(tier, seed):
 
 @prop("C13")
 def c13(tier, seed):
-    return _simple_api("C13", tier, seed, "crash_states",
-                       "cases = cmode x hmode x T in {1,2,4} x n in {0,1,16,c,2c+3} (quick: every 3rd, rotating with the seed) x stdio "
-                       "buffering {unbuffered, 16, 4096}; for each case the complete (offset,len,payload) write sequence is captured "
-                       "below stdio and EVERY byte-prefix of it is rebuilt as a file and given to execute_verify and execute_decrypt; "
-                       "oracle: accepted => state == complete file; exhaustive over crash points within each case; distinct = cases",
-                       2000, level="fault_enumeration", exhaustive=True)
-
-
-@prop("C16")
-def c16(tier, seed):
-    chk = Check("C16", tier, seed)
-    chk.assumptions = ASSUME_API
-    c, d, s = apiprops.run_api(chk, "C16", [(4, 4)], stall_s=60.0)
-    ev = sum(c.get(k, 0) for k in ("enc_groups", "enc_tails", "random_strings", "dec_groups", "dec_tails",
-                                   "validator_candidates", "printed_keys", "k_path_runs"))
-    ex = tier == "thorough"
-    extra = dict(counters=c, exhaustive_parts=("all 2^24 3-byte groups, all 64^4 symbol groups, all 1/2-byte tails, all padded tails"
-                                               if ex else "all 1/2-byte tails and padded tails; groups sampled 1/16 and 1/8"))
-    return chk.finish(ev, d.get("class", 0),
-                      "encoder: 3-byte groups (thorough: all 2^24), all 1- and 2-byte tails, random strings of every length 0..100 "
-                      "with canary-checked extent and NUL; decoder: 4-symbol groups (thorough: all 64^4), all padded tails, inverse of "
-                      "the encoder; validator: every single-byte substitution (24x256), insertions/deletions, every placement of 0-4 "
-                      "'=' in the last 6 positions, random placements, lengths 0..40, every 22nd symbol, vs MUST-ACCEPT (canonical "
-                      "16-byte encodings) / MUST-REJECT / DON'T-CARE (non-canonical pad bits) classes, accepted strings decoded into a "
-                      "canary buffer; printed keys round-trip; the real -k parser path under ASan; distinct = distinct candidates/groups",
-                      s, extra, min_evaluations=100000)
-
-
-@prop("C18")
-def c18(tier, seed):
-    variants = [(4, 4)] if tier == "quick" else [(1, 4), (4, 4)]
-    return _simple_api("C18", tier, seed, "files",
-                       "T = 2..16 x non-ECB modes x {random, all-chunks-equal} plaintexts of 2T+1 chunks x seeds; for every stream the IV "
-                       "it really started from is recovered from (key, P, C) with the reference block cipher; monitors: pairwise "
-                       "distinct stream IVs, distinct header slots, all slots and the used IV change when one seed bit changes, no "
-                       "keystream block used twice (CTR/OFB), equal plaintext chunks never give equal ciphertext chunks; every "
-                       "violating observation carries a cause signature; distinct = (T, mode, plaintext kind, seed index)",
-                       500, variants=variants)
+    import killprops
+    chk = Check("C13", tier, seed, level="fault_enumeration")
+    chk.assumptions = ASSUME_API + ["crash model: process death = a byte prefix of the issue-ordered write stream applied to an empty file; reordering below the page cache is outside the statement"]
+    variants = QUICK_V if tier == "quick" else [(4, 4), (1, 1), (8, 16)]
+    c, d, s = apiprops.run_api(chk, "C13", variants, crash_is_violation=False)
+    kill = killprops.kill_runs(chk, 2 if tier == "quick" else 12, seed)
+    extra = dict(counters=c, distinct_by_kind=d, os_level_sigkill_runs=kill,
+                 chunk_variants=["chunk %dB / refill %dB" % (b * 16, h * 64) for b, h in variants])
+    return chk.finish(c.get("crash_states", 0) + kill["partial_files_checked"], d.get("class", 0),
+                      "cases = cmode x hmode x T in {1,2,4} x n in {0,1,16,c,2c+3} (quick: every 3rd, rotating with the seed) x stdio "
+                      "buffering {unbuffered, 16, 4096}; for each case the complete (offset,len,payload) write sequence is captured "
+                      "below stdio and EVERY byte-prefix of it is rebuilt as a file and given to execute_verify and execute_decrypt; "
+                      "oracle: accepted => state == complete file; exhaustive over crash points within each case; plus real SIGKILLs of "
+                      "the CLI at every write(2) to the output (strace injection), partial file must be rejected by -v and -d; "
+                      "distinct = cases",
+                      s, extra, min_evaluations=2000, exhaustive=True)
 
 
 @prop("C15")
